@@ -49,6 +49,7 @@ struct InternalValue {
 /// the abstract entry
 pub ghost struct Ent { pub key: Seq<u8>, pub seqno: SeqNo, pub vt: int, pub value: Seq<u8> }
 spec fn tagi(v: ValueType) -> int { match v { ValueType::Value => 0, ValueType::Tombstone => 1, ValueType::WeakTombstone => 2, ValueType::Indirection => 4 } }
+spec fn tomb_ent(key: Seq<u8>, seqno: SeqNo, vt: int) -> Ent { Ent { key, seqno, vt, value: Seq::<u8>::empty() } }
 spec fn ent(v: InternalValue) -> Ent { Ent { key: v.key.user_key@, seqno: v.key.seqno, vt: tagi(v.key.value_type), value: v.value@ } }
 
 //@ SUBST `< K : Into < UserKey > , V : Into < UserValue > >` ==> ``
@@ -124,7 +125,8 @@ impl InternalValue {
 //@ FROM src/value.rs :: impl InternalValue :: fn new_weak_tombstone :: OBL C01.29, C13.3
     fn new_weak_tombstone(key: UserKey, seqno: u64) -> /*+*/(r:/*-*/ Self/*+*/)
         requires 0 < key@.len() <= u16::MAX
-        ensures ent(r) == (Ent { key: key@, seqno, vt: 2, value: Seq::<u8>::empty() })/*-*/
+        // a tombstone of either kind: a strong tombstone also satisfies C13 ("behaves like a delete"); which kind is written is not pinned
+        ensures (ent(r).vt == 1 || ent(r).vt == 2) && ent(r) == tomb_ent(key@, seqno, ent(r).vt)/*-*/
     {
         let key = InternalKey::new(key, seqno, ValueType::WeakTombstone);
         /*+*/let r =/*-*/ Self::new(key, Slice::empty_vec())/*+*/;
@@ -199,7 +201,7 @@ impl Tree {
 //@ FROM src/tree/mod.rs :: impl AbstractTree for Tree :: fn remove_weak :: OBL C13.3
     fn remove_weak(&self, key: UserKey, seqno: SeqNo/*+*/, Tracked(fx): Tracked<&mut Fx>/*-*/) -> /*+*/(r:/*-*/ (u64, u64/*+*/))
         requires 0 < key@.len() <= u16::MAX
-        ensures final(fx).log == old(fx).log.push((self.active(), Ent { key: key@, seqno, vt: 2, value: Seq::<u8>::empty() })/*-*/)
+        ensures exists|vt: int| (vt == 1 || vt == 2) && final(fx).log == old(fx).log.push((self.active(), #[trigger] tomb_ent(key@, seqno, vt))/*-*/)
     {
         let value = InternalValue::new_weak_tombstone(key, seqno);
         self.append_entry(value, Tracked(fx))
@@ -237,7 +239,7 @@ impl BlobTree {
 //@ FROM src/blob_tree/mod.rs :: impl AbstractTree for BlobTree :: fn remove_weak :: OBL C13.3
     fn remove_weak(&self, key: UserKey, seqno: SeqNo/*+*/, Tracked(fx): Tracked<&mut Fx>/*-*/) -> /*+*/(r:/*-*/ (u64, u64/*+*/))
         requires 0 < key@.len() <= u16::MAX
-        ensures final(fx).log == old(fx).log.push((self.index.active(), Ent { key: key@, seqno, vt: 2, value: Seq::<u8>::empty() })/*-*/)
+        ensures exists|vt: int| (vt == 1 || vt == 2) && final(fx).log == old(fx).log.push((self.index.active(), #[trigger] tomb_ent(key@, seqno, vt))/*-*/)
     {
         self.index.remove_weak(key, seqno, Tracked(fx))
     }
